@@ -104,6 +104,7 @@ package par
 // Add: under the lock; the invariant holds again when the lock is released.
 // An item enters the queue exactly when it was not added before (duplicate adds are ignored).
 //@ ghost var gSnapLen Int
+//@ ghost var gPick Int
 //@ ghost var gSnapArr (Array Int Int)
 //@ ghost var gSnapAdded Bool
 //@ func (*Work).Add
@@ -127,9 +128,10 @@ package par
 //@   at call (*sync.Mutex).Unlock#2: ghost gF[w] = gF[w] + 1; myF = 1; myR = 0
 //@   at call field:w.f#1: requires myHeld == 0 && myF == 1 && gF[w] >= 1
 //@   at call rand.Intn#1: ghost gSnapLen = len(w.todo); gSnapArr = arrof(w.todo)
-//@   at call (*sync.Mutex).Unlock#2: requires len(w.todo) == gSnapLen - 1 && 0 <= i && i < gSnapLen && item == gSnapArr[lo(w.todo) + i]
-//@   at call (*sync.Mutex).Unlock#2: requires forall K {at(w.todo,K)} :: lo(w.todo) <= K && K < hi(w.todo) && K != lo(w.todo) + i ==> at(w.todo,K) == gSnapArr[K]
-//@   at call (*sync.Mutex).Unlock#2: requires lo(w.todo) + i < hi(w.todo) ==> at(w.todo, lo(w.todo) + i) == gSnapArr[lo(w.todo) + gSnapLen - 1]
+//@   at call rand.Intn#1: ghost_after gPick = r
+//@   at call (*sync.Mutex).Unlock#2: requires len(w.todo) == gSnapLen - 1 && 0 <= gPick && gPick < gSnapLen && item == gSnapArr[lo(w.todo) + gPick]
+//@   at call (*sync.Mutex).Unlock#2: requires forall K {at(w.todo,K)} :: lo(w.todo) <= K && K < hi(w.todo) && K != lo(w.todo) + gPick ==> at(w.todo,K) == gSnapArr[K]
+//@   at call (*sync.Mutex).Unlock#2: requires lo(w.todo) + gPick < hi(w.todo) ==> at(w.todo, lo(w.todo) + gPick) == gSnapArr[lo(w.todo) + gSnapLen - 1]
 //@   loop 1: invariant myHeld == 0 && myR + myF == 1 && myR >= 0 && myF >= 0 && (myR == 1 ==> sum4(gS[w], gK[w], gX[w], gF[w]) <= gSpawned[w] - 1) && gSpawned[w] <= w.running && (myF == 1 ==> gF[w] >= 1)
 //@   loop 2: invariant myHeld == w && gHeld[w] && myR == 1 && myF == 0 && sum4(gS[w], gK[w], gX[w], gF[w]) <= gSpawned[w] - 1 && gSpawned[w] <= w.running && w.waiting == gS[w] + gK[w] + gX[w] && (gS[w] > 0 ==> len(w.todo) <= gK[w] + 1)
 //@   ensures myHeld == 0
